@@ -70,6 +70,9 @@ def strSlice (s : Str) (lo hi : Int) : Option Str :=
   | none => none
   | some bs => Utf8.decode bs
 
+/-- `[]byte(s)`: the UTF-8 bytes of a string -/
+def strBytes (s : Str) : List Int := (Utf8.encode s).map Int.ofNat
+
 def strSliceFrom (s : Str) (lo : Int) : Option Str := strSlice s lo (strLen s)
 def strSliceTo (s : Str) (hi : Int) : Option Str := strSlice s 0 hi
 
